@@ -15,7 +15,7 @@ ASSUMPTIONS = TRUSTED_BASE + [
     "of an initial path or of the path replaced in that very step; initial paths are never queued",
     "proved (E1, all path and list lengths; uses the executor's try/except support: an index beyond a list FORKS into the IndexError handler): Path.update_energies gives frame k element k of each energy list and None where the list is shorter, "
     "changes nothing else and never raises (precondition from the call sites: the frames of one path are distinct objects)",
-    "bounded native: PathStorage.output followed by load_path for multi-file paths, reversed frames, missing energies, revisited files: same length, frame references (basename, index, velocity direction), energies, orders to 6 decimals, every file under the path's own directory",
+    "bounded native: PathStorage.output followed by load_path for multi-file paths, reversed frames, missing energies, revisited files, one file referenced in both velocity directions, and every (file, direction) assignment of a 3-frame path over two files: same length, frame references (basename, index, velocity direction), energies, orders to 6 decimals, every file under the path's own directory",
     "file names without whitespace (traj.txt is whitespace separated); distinct source files have distinct basenames (the engines' naming scheme <ens>_<pid>_<counter>_traj[BF])",
 ]
 EXPLANATION = (
@@ -97,7 +97,12 @@ CASES = {
     "three_files": [("x1.xyz", 0, False, 1.0), ("x2.xyz", 3, True, 1.000001), ("x2.xyz", 2, True, 123.456789), ("x3.xyz", 0, False, -7.25)],
     "file_revisited": [("a.xyz", 0, False, 0.0), ("a.xyz", 1, False, 0.1), ("b.xyz", 0, True, 0.2), ("b.xyz", 1, True, 0.3), ("a.xyz", 2, False, 0.4), ("a.xyz", 3, False, 0.5)],
     "index_none": [("c.xyz", None, False, 0.25), ("d.xyz", 1, False, 0.5)],
+    # one trajectory file referenced by frames of both velocity directions (a partly reversed segment)
+    "mixed_direction_in_one_file": [("m1.xyz", 0, False, 0.0), ("m2.xyz", 3, False, 0.1), ("m2.xyz", 2, True, 0.2), ("m2.xyz", 1, True, 0.3), ("m2.xyz", 4, False, 0.4), ("m1.xyz", 1, True, 0.5)],
 }
+# every assignment of (file, velocity direction) to the frames of a 3-frame path over two files (4^3 = 64 paths)
+for _n, _combo in enumerate(__import__("itertools").product([(f, r) for f in ("e1.xyz", "e2.xyz") for r in (False, True)], repeat=3)):
+    CASES[f"enum3_{_n:02d}"] = [(f, k, r, 0.25 * k - 0.5) for k, (f, r) in enumerate(_combo)]
 
 
 def store_load(spec, tier, seed):
